@@ -39,56 +39,94 @@ def _find_call(n, var):
     raise NotRecognised("not %s.find/rfind(b'c'): %s" % (var, ast.unparse(n)))
 
 
+def _val(v):
+    if isinstance(v, NotRecognised):
+        raise v
+    return v
+
+
+class _Partial(dict):
+    """per-key results of an extractor: a value, or the NotRecognised that THIS key ran into — one
+    unrecognised statement must not take the other facts of the function with it"""
+    def need(self, k):
+        if k not in self:
+            raise NotRecognised("%s not found" % k)
+        v = self[k]
+        if isinstance(v, NotRecognised):
+            raise v
+        return v
+
+
 def parse_stat_facts(tree):
     fn = _proc_fn(tree, "_parse_stat_file")
-    out = {}
+    out = _Partial()
     idx = {}
     fallback = False
+
+    def guarded(key, f):
+        try:
+            out[key] = f()
+        except NotRecognised as e:
+            out[key] = e
+
+    def rpar_of(v):
+        meth, ch = _find_call(v, "data")
+        if ch != ord(")"):
+            raise NotRecognised("rpar looks for %r" % chr(ch))
+        return meth == "rfind"
+
+    def name_of(v):
+        # data[data.find(b'(') + 1 : rpar]
+        if not (isinstance(v, ast.Subscript) and _is_name(v.value, "data") and isinstance(v.slice, ast.Slice)
+                and v.slice.step is None and _is_name(v.slice.upper, "rpar")):
+            raise NotRecognised("name slice: %s" % ast.unparse(v))
+        lo = v.slice.lower
+        if not (isinstance(lo, ast.BinOp) and isinstance(lo.op, ast.Add) and extract.const(lo.right) == 1):
+            raise NotRecognised("name slice lower: %s" % ast.unparse(lo))
+        meth, ch = _find_call(lo.left, "data")
+        if ch != ord("("):
+            raise NotRecognised("name slice looks for %r" % chr(ch))
+        return meth == "find"
+
+    def skip_of(v):
+        # data[rpar + 2 :].split()
+        if not (isinstance(v, ast.Call) and isinstance(v.func, ast.Attribute) and v.func.attr == "split"
+                and not v.args and not v.keywords):
+            raise NotRecognised("fields: %s" % ast.unparse(v))
+        sub = v.func.value
+        if not (isinstance(sub, ast.Subscript) and _is_name(sub.value, "data") and isinstance(sub.slice, ast.Slice)
+                and sub.slice.upper is None and sub.slice.step is None):
+            raise NotRecognised("fields slice: %s" % ast.unparse(sub))
+        if _is_name(sub.slice.lower, "rpar"):
+            return 0
+        return _plus_const(sub.slice.lower, lambda e: _is_name(e, "rpar"))
+
+    zero_keys = set()
     for st in ast.walk(fn):
         if isinstance(st, ast.Assign) and len(st.targets) == 1:
             t, v = st.targets[0], st.value
             if _is_name(t, "rpar"):
-                meth, ch = _find_call(v, "data")
-                if ch != ord(")"):
-                    raise NotRecognised("rpar looks for %r" % chr(ch))
-                out["statUsesRfind"] = meth == "rfind"
+                guarded("statUsesRfind", lambda: rpar_of(v))
             elif _is_name(t, "name"):
-                # data[data.find(b'(') + 1 : rpar]
-                if not (isinstance(v, ast.Subscript) and _is_name(v.value, "data") and isinstance(v.slice, ast.Slice)
-                        and v.slice.step is None and _is_name(v.slice.upper, "rpar")):
-                    raise NotRecognised("name slice: %s" % ast.unparse(v))
-                lo = v.slice.lower
-                if not (isinstance(lo, ast.BinOp) and isinstance(lo.op, ast.Add) and extract.const(lo.right) == 1):
-                    raise NotRecognised("name slice lower: %s" % ast.unparse(lo))
-                meth, ch = _find_call(lo.left, "data")
-                if ch != ord("("):
-                    raise NotRecognised("name slice looks for %r" % chr(ch))
-                out["nameFromFirstLpar"] = meth == "find"
+                guarded("nameFromFirstLpar", lambda: name_of(v))
             elif _is_name(t, "fields"):
-                # data[rpar + 2 :].split()
-                if not (isinstance(v, ast.Call) and isinstance(v.func, ast.Attribute) and v.func.attr == "split"
-                        and not v.args and not v.keywords):
-                    raise NotRecognised("fields: %s" % ast.unparse(v))
-                sub = v.func.value
-                if not (isinstance(sub, ast.Subscript) and _is_name(sub.value, "data") and isinstance(sub.slice, ast.Slice)
-                        and sub.slice.upper is None and sub.slice.step is None):
-                    raise NotRecognised("fields slice: %s" % ast.unparse(sub))
-                out["statSkip"] = _plus_const(sub.slice.lower, lambda e: _is_name(e, "rpar"))
+                guarded("statSkip", lambda: skip_of(v))
             elif isinstance(t, ast.Subscript) and _is_name(t.value, "ret"):
                 key = extract.const(t.slice)
                 if isinstance(v, ast.Subscript) and _is_name(v.value, "fields"):
                     i = extract.const(v.slice)
                     if not isinstance(i, int) or i < 0:
-                        raise NotRecognised("index of %s" % key)
-                    if key in idx and idx[key] != i:
-                        raise NotRecognised("two indices for %s" % key)
-                    idx[key] = i
+                        idx[key] = NotRecognised("index of %s: %s" % (key, ast.unparse(v)))
+                    elif key in idx and idx[key] != i:
+                        idx[key] = NotRecognised("two indices for %s" % key)
+                    else:
+                        idx[key] = i
                 elif _is_name(v, "name") and key == "name":
                     out["nameKeyOk"] = True
                 elif isinstance(v, ast.Constant) and v.value == 0:
-                    out.setdefault("zeroKeys", set()).add(key)
+                    zero_keys.add(key)
                 else:
-                    raise NotRecognised("ret[%r] = %s" % (key, ast.unparse(v)))
+                    idx[key] = NotRecognised("ret[%r] = %s" % (key, ast.unparse(v)))
     # the IndexError fallback for blkio_ticks
     for st in ast.walk(fn):
         if isinstance(st, ast.Try):
@@ -101,11 +139,9 @@ def parse_stat_facts(tree):
                           and isinstance(s.value, ast.Constant) and s.value.value == 0]
                     if body_keys == ["blkio_ticks"] and hk == ["blkio_ticks"]:
                         fallback = True
-    if out.get("zeroKeys", set()) - {"blkio_ticks"}:
-        raise NotRecognised("constant 0 stored for %s" % out["zeroKeys"])
-    for k in ("statUsesRfind", "nameFromFirstLpar", "statSkip", "nameKeyOk"):
-        if k not in out:
-            raise NotRecognised("_parse_stat_file: %s not found" % k)
+    for k in zero_keys - {"blkio_ticks"}:
+        idx[k] = NotRecognised("constant 0 stored for %s" % k)
+    out.setdefault("nameKeyOk", False)
     out["idx"] = idx
     out["blkioFallback"] = fallback
     return out
@@ -150,6 +186,8 @@ def _tick_expr_key(v):
 
 
 def cpu_times_keys(tree):
+    """the stat key behind each of the five positional arguments of pcputimes(...): a key, or the NotRecognised
+    of that argument alone"""
     fn = _proc_fn(tree, "cpu_times")
     var = {}
     ret = None
@@ -159,13 +197,24 @@ def cpu_times_keys(tree):
                 if not (isinstance(st.value, ast.Call) and extract.dotted(st.value.func) == "self._parse_stat_file"):
                     raise NotRecognised("cpu_times: values = %s" % ast.unparse(st.value))
                 continue
-            var[st.targets[0].id] = _tick_expr_key(st.value)
+            try:
+                var[st.targets[0].id] = _tick_expr_key(st.value)
+            except NotRecognised as e:
+                var[st.targets[0].id] = e
         elif isinstance(st, ast.Return):
             ret = st.value
-    if not (isinstance(ret, ast.Call) and extract.dotted(ret.func) == "pcputimes" and len(ret.args) == 5
-            and all(isinstance(a, ast.Name) and a.id in var for a in ret.args)):
+    if not (isinstance(ret, ast.Call) and extract.dotted(ret.func) == "pcputimes" and len(ret.args) == 5):
         raise NotRecognised("cpu_times: return shape")
-    return [var[a.id] for a in ret.args]
+    out = []
+    for a in ret.args:
+        if isinstance(a, ast.Name) and a.id in var:
+            out.append(var[a.id])
+        else:
+            try:
+                out.append(_tick_expr_key(a))
+            except NotRecognised as e:
+                out.append(e)
+    return out
 
 
 def create_time_key(tree):
@@ -189,49 +238,72 @@ def create_time_key(tree):
 
 def threads_facts(tree):
     fn = _proc_fn(tree, "threads")
-    out = {}
+    out = _Partial()
+
+    def guarded(keys, f):
+        try:
+            r = f()
+        except NotRecognised as e:
+            r = {k: e for k in keys}
+        out.update(r)
+
+    def slice_of(v):
+        # st[st.find(b')') + 2 :]
+        if not (_is_name(v.value, "st") and isinstance(v.slice, ast.Slice) and v.slice.upper is None):
+            raise NotRecognised("threads slice: %s" % ast.unparse(v))
+        lo = v.slice.lower
+        if isinstance(lo, ast.BinOp) and isinstance(lo.op, ast.Add):
+            call, k = lo.left, extract.const(lo.right)
+        else:
+            call, k = lo, 0
+        meth, ch = _find_call(call, "st")
+        if ch != ord(")"):
+            raise NotRecognised("threads looks for %r" % chr(ch))
+        if not isinstance(k, int) or k < 0:
+            raise NotRecognised("threads slice lower: %s" % ast.unparse(lo))
+        return {"threadsUsesRfind": meth == "rfind", "threadsSkip": k}
+
+    def tick_of(name, v):
+        if not (isinstance(v, ast.BinOp) and isinstance(v.op, ast.Div) and _is_name(v.right, "CLOCK_TICKS")
+                and isinstance(v.left, ast.Call) and extract.dotted(v.left.func) == "float"
+                and isinstance(v.left.args[0], ast.Subscript) and _is_name(v.left.args[0].value, "values")):
+            raise NotRecognised("threads: %s = %s" % (name, ast.unparse(v)))
+        i = extract.const(v.left.args[0].slice)
+        if not isinstance(i, int) or i < 0:
+            raise NotRecognised("threads: index of %s" % name)
+        return {name: i}
+
     for st in ast.walk(fn):
         if isinstance(st, ast.Assign) and len(st.targets) == 1:
             t, v = st.targets[0], st.value
             if _is_name(t, "st") and isinstance(v, ast.Subscript):
-                # st[st.find(b')') + 2 :]
-                if not (_is_name(v.value, "st") and isinstance(v.slice, ast.Slice) and v.slice.upper is None):
-                    raise NotRecognised("threads slice: %s" % ast.unparse(v))
-                lo = v.slice.lower
-                if not (isinstance(lo, ast.BinOp) and isinstance(lo.op, ast.Add)):
-                    raise NotRecognised("threads slice lower")
-                meth, ch = _find_call(lo.left, "st")
-                if ch != ord(")"):
-                    raise NotRecognised("threads looks for %r" % chr(ch))
-                out["threadsUsesRfind"] = meth == "rfind"
-                out["threadsSkip"] = extract.const(lo.right)
+                guarded(["threadsUsesRfind", "threadsSkip"], lambda: slice_of(v))
             elif _is_name(t, "st"):
                 # f.read().strip()
-                if not (isinstance(v, ast.Call) and isinstance(v.func, ast.Attribute) and v.func.attr == "strip"
-                        and not v.args):
-                    raise NotRecognised("threads: st = %s" % ast.unparse(v))
-                out["strip"] = True
+                out["strip"] = (isinstance(v, ast.Call) and isinstance(v.func, ast.Attribute) and v.func.attr == "strip"
+                                and not v.args) or NotRecognised("threads: st = %s" % ast.unparse(v))
             elif _is_name(t, "values"):
-                if not (isinstance(v, ast.Call) and isinstance(v.func, ast.Attribute) and v.func.attr == "split"
-                        and _is_name(v.func.value, "st") and len(v.args) == 1 and _bytes_const(v.args[0]) == b" "):
-                    raise NotRecognised("threads: values = %s" % ast.unparse(v))
-                out["split"] = True
+                try:
+                    ok = (isinstance(v, ast.Call) and isinstance(v.func, ast.Attribute) and v.func.attr == "split"
+                          and _is_name(v.func.value, "st") and len(v.args) == 1 and _bytes_const(v.args[0]) == b" ")
+                except NotRecognised:
+                    ok = False
+                out["split"] = ok or NotRecognised("threads: values = %s" % ast.unparse(v))
             elif isinstance(t, ast.Name) and t.id in ("utime", "stime"):
-                if not (isinstance(v, ast.BinOp) and isinstance(v.op, ast.Div) and _is_name(v.right, "CLOCK_TICKS")
-                        and isinstance(v.left, ast.Call) and extract.dotted(v.left.func) == "float"
-                        and isinstance(v.left.args[0], ast.Subscript) and _is_name(v.left.args[0].value, "values")):
-                    raise NotRecognised("threads: %s = %s" % (t.id, ast.unparse(v)))
-                out[t.id] = extract.const(v.left.args[0].slice)
+                guarded([t.id], lambda: tick_of(t.id, v))
             elif _is_name(t, "ntuple"):
-                if not (isinstance(v, ast.Call) and extract.dotted(v.func).endswith("pthread") and len(v.args) == 3
-                        and ast.unparse(v.args[0]) == "int(thread_id)" and _is_name(v.args[1], "utime")
-                        and _is_name(v.args[2], "stime")):
-                    raise NotRecognised("threads: ntuple = %s" % ast.unparse(v))
-                out["ntuple"] = True
-    for k in ("threadsUsesRfind", "threadsSkip", "strip", "split", "utime", "stime", "ntuple"):
-        if k not in out:
-            raise NotRecognised("threads: %s not found" % k)
+                ok = (isinstance(v, ast.Call) and extract.dotted(v.func).endswith("pthread") and len(v.args) == 3
+                      and ast.unparse(v.args[0]) == "int(thread_id)" and _is_name(v.args[1], "utime")
+                      and _is_name(v.args[2], "stime"))
+                out["ntuple"] = ok or NotRecognised("threads: ntuple = %s" % ast.unparse(v))
     return out
+
+
+def threads_index(th, name):
+    """values index of utime/stime — only meaningful when strip/split/ntuple have the known shape"""
+    for k in ("strip", "split", "ntuple"):
+        th.need(k)
+    return th.need(name)
 
 
 _PAT = re.compile(rb'^(\(\?m\)\^|\^)?((?:[A-Za-z_: ]|\\[nt])+?)((?:\\t\(\\d\+\))+)$')
@@ -287,66 +359,97 @@ def status_binary(tree):
 
 # ------------------------------------------------------------------ extension: code around the parsers
 
+def _enclosing_if_tests(root, target):
+    """unparsed tests of the `if` statements (innermost last) whose BODY holds `target`, inside `root`;
+    an `else:` branch is written `not (<test>)`"""
+    chain = []
+
+    def walk(node, acc):
+        if node is target:
+            chain.extend(acc)
+            return True
+        for field, val in ast.iter_fields(node):
+            items = val if isinstance(val, list) else [val]
+            for it in items:
+                if not isinstance(it, ast.AST):
+                    continue
+                acc2 = acc
+                if isinstance(node, ast.If) and field == "body":
+                    acc2 = acc + [ast.unparse(node.test)]
+                elif isinstance(node, ast.If) and field == "orelse":
+                    acc2 = acc + ["not (%s)" % ast.unparse(node.test)]
+                if walk(it, acc2):
+                    return True
+        return False
+    walk(root, [])
+    return chain
+
+
 def tmap_facts(snap):
-    """_psposix.get_terminal_map: glob patterns, FileNotFoundError guard, S_ISCHR test, @memoize."""
+    """_psposix.get_terminal_map: glob patterns, FileNotFoundError guard, the condition under which an entry is
+    stored, @memoize — each extracted on its own."""
     tree = extract.parse_module(snap, "_psposix.py")
     fn = extract.find_def(tree, "get_terminal_map")
-    out = {"memoized": "memoize" in extract.decorators(fn)}
-    globs = None
-    for st in ast.walk(fn):
-        if isinstance(st, ast.Assign) and len(st.targets) == 1 and _is_name(st.targets[0], "ls"):
-            parts, todo = [], [st.value]
-            while todo:
-                n = todo.pop(0)
-                if isinstance(n, ast.BinOp) and isinstance(n.op, ast.Add):
-                    todo = [n.left, n.right] + todo
-                elif isinstance(n, ast.Call) and extract.dotted(n.func) == "glob.glob" and len(n.args) == 1 and not n.keywords:
-                    v = extract.const(n.args[0])
-                    if not isinstance(v, str):
-                        raise NotRecognised("glob pattern %r" % (v,))
-                    parts.append(v)
-                else:
-                    raise NotRecognised("ls = %s" % ast.unparse(st.value))
-            globs = parts
-    if globs is None:
-        raise NotRecognised("get_terminal_map: `ls = glob.glob(..) + ..` not found")
-    out["globs"] = globs
-    loops = [n for n in fn.body if isinstance(n, ast.For)]
-    if len(loops) != 1 or not _is_name(loops[0].iter, "ls") or not _is_name(loops[0].target, "name"):
-        raise NotRecognised("get_terminal_map: loop over ls")
-    loop = loops[0]
-    src = ast.unparse(loop)
-    stores = [n for n in ast.walk(loop) if isinstance(n, ast.Assign) and isinstance(n.targets[0], ast.Subscript)
-              and _is_name(n.targets[0].value, "ret")]
-    if len(stores) != 1 or not _is_name(stores[0].value, "name"):
-        raise NotRecognised("get_terminal_map: stores into ret: %s" % [ast.unparse(x) for x in stores])
-    key = ast.unparse(stores[0].targets[0].slice)
-    if key not in ("os.stat(name).st_rdev", "st.st_rdev"):
-        raise NotRecognised("get_terminal_map: key %s" % key)
-    if key == "st.st_rdev" and "st = os.stat(name)" not in src:
-        raise NotRecognised("get_terminal_map: st is not os.stat(name)")
-    # the os.stat call must sit in a try whose only handler is FileNotFoundError: pass/continue
-    guarded = False
-    for t in ast.walk(loop):
-        if isinstance(t, ast.Try) and "os.stat(name)" in "".join(ast.unparse(b) for b in t.body):
-            hs = t.handlers
-            if len(hs) == 1 and hs[0].type is not None and extract.dotted(hs[0].type) == "FileNotFoundError" \
-                    and all(isinstance(b, (ast.Pass, ast.Continue)) for b in hs[0].body):
-                guarded = True
-            else:
-                raise NotRecognised("get_terminal_map: handlers %s" % [ast.unparse(h) for h in hs])
-    out["skipsVanished"] = guarded
-    chr_calls = [c for c in ast.walk(loop) if isinstance(c, ast.Call) and extract.dotted(c.func) in ("stat.S_ISCHR", "S_ISCHR")]
-    if chr_calls:
-        # recognised shape: the store is the body of `if stat.S_ISCHR(st.st_mode):`
-        ok = False
-        for i in ast.walk(loop):
-            if isinstance(i, ast.If) and ast.unparse(i.test) in ("stat.S_ISCHR(st.st_mode)", "S_ISCHR(st.st_mode)") \
-                    and stores[0] in i.body and not i.orelse:
-                ok = True
-        if not ok:
-            raise NotRecognised("get_terminal_map: S_ISCHR used in an unknown way")
-    out["checksChr"] = bool(chr_calls)
+    out = _Partial({"memoized": "memoize" in extract.decorators(fn)})
+
+    def globs_of():
+        globs = None
+        for st in ast.walk(fn):
+            if isinstance(st, ast.Assign) and len(st.targets) == 1 and _is_name(st.targets[0], "ls"):
+                parts, todo = [], [st.value]
+                while todo:
+                    n = todo.pop(0)
+                    if isinstance(n, ast.BinOp) and isinstance(n.op, ast.Add):
+                        todo = [n.left, n.right] + todo
+                    elif isinstance(n, ast.Call) and extract.dotted(n.func) == "glob.glob" and len(n.args) == 1 and not n.keywords \
+                            and isinstance(extract.const(n.args[0]), str):
+                        parts.append(extract.const(n.args[0]))
+                    else:
+                        # total: an operand of another shape is reported as its source text
+                        parts.append("<" + ast.unparse(n) + ">")
+                globs = parts
+        if globs is None:
+            raise NotRecognised("get_terminal_map: `ls = ...` not found")
+        return globs
+
+    def loop_of():
+        loops = [n for n in fn.body if isinstance(n, ast.For)]
+        if len(loops) != 1 or not _is_name(loops[0].iter, "ls") or not _is_name(loops[0].target, "name"):
+            raise NotRecognised("get_terminal_map: loop over ls")
+        return loops[0]
+
+    def store_of(loop):
+        stores = [n for n in ast.walk(loop) if isinstance(n, ast.Assign) and isinstance(n.targets[0], ast.Subscript)
+                  and _is_name(n.targets[0].value, "ret")]
+        if len(stores) != 1 or not _is_name(stores[0].value, "name"):
+            raise NotRecognised("get_terminal_map: stores into ret: %s" % [ast.unparse(x) for x in stores])
+        key = ast.unparse(stores[0].targets[0].slice)
+        if key not in ("os.stat(name).st_rdev", "st.st_rdev"):
+            raise NotRecognised("get_terminal_map: key %s" % key)
+        if key == "st.st_rdev" and "st = os.stat(name)" not in ast.unparse(loop):
+            raise NotRecognised("get_terminal_map: st is not os.stat(name)")
+        return stores[0]
+
+    def skips_of(loop):
+        # the os.stat call must sit in a try whose only handler is FileNotFoundError: pass/continue
+        guarded = False
+        for t in ast.walk(loop):
+            if isinstance(t, ast.Try) and "os.stat(name)" in "".join(ast.unparse(b) for b in t.body):
+                hs = t.handlers
+                guarded = (len(hs) == 1 and hs[0].type is not None and extract.dotted(hs[0].type) == "FileNotFoundError"
+                           and all(isinstance(b, (ast.Pass, ast.Continue)) for b in hs[0].body))
+        return guarded
+
+    for key, f in (("globs", globs_of), ("skipsVanished", lambda: skips_of(loop_of())),
+                   ("guards", lambda: _enclosing_if_tests(loop_of(), store_of(loop_of())))):
+        try:
+            out[key] = f()
+        except NotRecognised as e:
+            out[key] = e
+    if not isinstance(out["guards"], NotRecognised):
+        out["checksChr"] = out["guards"] in (["stat.S_ISCHR(st.st_mode)"], ["S_ISCHR(st.st_mode)"])
+    else:
+        out["checksChr"] = out["guards"]
     return out
 
 
@@ -386,50 +489,61 @@ def create_uses_cached_boot(tree):
 
 def threads_scan_facts(tree):
     fn = _proc_fn(tree, "threads")
+    out = _Partial()
     loops = [(i, n) for i, n in enumerate(fn.body) if isinstance(n, ast.For)]
     if len(loops) != 1 or not _is_name(loops[0][1].iter, "thread_ids"):
         raise NotRecognised("threads: one loop over thread_ids expected")
     li, loop = loops[0]
     before, after = fn.body[:li], fn.body[li + 1:]
-    listing = [s for s in before if isinstance(s, ast.Assign) and _is_name(s.targets[0], "thread_ids")]
-    if len(listing) != 1 or not ast.unparse(listing[0].value).startswith("os.listdir("):
-        raise NotRecognised("threads: thread_ids = os.listdir(..)")
-    sorts = [s for s in before if ast.unparse(s) == "thread_ids.sort()"]
-    other = [s for s in before if "thread_ids" in ast.unparse(s) and s not in listing and s not in sorts]
-    if other or "sorted(" in ast.unparse(listing[0].value) or "reverse" in ast.unparse(fn):
-        raise NotRecognised("threads: thread_ids touched in an unknown way: %s" % [ast.unparse(o) for o in other])
-    out = {"sorts": bool(sorts)}
-    skips = skips_esrch = False
-    for t in ast.walk(loop):
-        if isinstance(t, ast.Try):
-            for h in t.handlers:
-                names = set()
-                if isinstance(h.type, ast.Tuple):
-                    names = {extract.dotted(e) for e in h.type.elts}
-                elif h.type is not None:
-                    names = {extract.dotted(h.type)}
-                body = [ast.unparse(b) for b in h.body]
-                if names and names <= {"FileNotFoundError", "ProcessLookupError"} and body == ["hit_enoent = True", "continue"]:
-                    skips = skips or "FileNotFoundError" in names
-                    skips_esrch = skips_esrch or "ProcessLookupError" in names
-                else:
-                    raise NotRecognised("threads: handler %s" % ast.unparse(h))
-            # what the handler protects: opening AND reading the thread's stat file
-            tb = "\n".join(ast.unparse(b) for b in t.body)
-            if "open_binary(fname)" not in tb or "f.read()" not in tb:
-                raise NotRecognised("threads: try body %s" % tb[:80])
-    out["skipsVanished"] = skips
-    out["skipsEsrch"] = skips_esrch
-    # the flag that decides whether _raise_if_not_alive() runs starts as False
-    inits = [s for s in before if isinstance(s, ast.Assign) and len(s.targets) == 1 and _is_name(s.targets[0], "hit_enoent")]
-    if len(inits) != 1 or not isinstance(inits[0].value, ast.Constant) or not isinstance(inits[0].value.value, bool):
-        raise NotRecognised("threads: hit_enoent initialisation %s" % [ast.unparse(i) for i in inits])
-    out["hitStartsFalse"] = inits[0].value.value is False
-    checks = [s for s in after if isinstance(s, ast.If) and ast.unparse(s.test) == "hit_enoent"
-              and [ast.unparse(b) for b in s.body] == ["self._raise_if_not_alive()"] and not s.orelse]
-    out["checksAlive"] = bool(checks)
-    if not isinstance(after[-1], ast.Return) or not _is_name(after[-1].value, "retlist"):
-        raise NotRecognised("threads: return retlist")
+
+    def sorts_of():
+        listing = [s for s in before if isinstance(s, ast.Assign) and _is_name(s.targets[0], "thread_ids")]
+        if len(listing) != 1 or not ast.unparse(listing[0].value).startswith("os.listdir("):
+            raise NotRecognised("threads: thread_ids = os.listdir(..)")
+        sorts = [s for s in before if ast.unparse(s) == "thread_ids.sort()"]
+        other = [s for s in before if "thread_ids" in ast.unparse(s) and s not in listing and s not in sorts]
+        if other or "sorted(" in ast.unparse(listing[0].value) or "reverse" in ast.unparse(fn):
+            raise NotRecognised("threads: thread_ids touched in an unknown way: %s" % [ast.unparse(o) for o in other])
+        return bool(sorts)
+
+    def handlers_of():
+        skips = skips_esrch = False
+        for t in ast.walk(loop):
+            if isinstance(t, ast.Try):
+                # what the handler protects: opening AND reading the thread's stat file
+                tb = "\n".join(ast.unparse(b) for b in t.body)
+                protects = "open_binary(fname)" in tb and "f.read()" in tb
+                for h in t.handlers:
+                    names = set()
+                    if isinstance(h.type, ast.Tuple):
+                        names = {extract.dotted(e) for e in h.type.elts}
+                    elif h.type is not None:
+                        names = {extract.dotted(h.type)}
+                    body = [ast.unparse(b) for b in h.body]
+                    if protects and body == ["hit_enoent = True", "continue"]:
+                        skips = skips or "FileNotFoundError" in names
+                        skips_esrch = skips_esrch or "ProcessLookupError" in names
+        return skips, skips_esrch
+
+    def init_of():
+        inits = [s for s in before if isinstance(s, ast.Assign) and len(s.targets) == 1 and _is_name(s.targets[0], "hit_enoent")]
+        if len(inits) != 1 or not isinstance(inits[0].value, ast.Constant) or not isinstance(inits[0].value.value, bool):
+            raise NotRecognised("threads: hit_enoent initialisation %s" % [ast.unparse(i) for i in inits])
+        return inits[0].value.value is False
+
+    def checks_of():
+        checks = [s for s in after if isinstance(s, ast.If) and ast.unparse(s.test) == "hit_enoent"
+                  and [ast.unparse(b) for b in s.body] == ["self._raise_if_not_alive()"] and not s.orelse]
+        if not after or not isinstance(after[-1], ast.Return) or not _is_name(after[-1].value, "retlist"):
+            raise NotRecognised("threads: return retlist")
+        return bool(checks)
+
+    for key, f in (("sorts", sorts_of), ("skipsVanished", lambda: handlers_of()[0]), ("skipsEsrch", lambda: handlers_of()[1]),
+                   ("hitStartsFalse", init_of), ("checksAlive", checks_of)):
+        try:
+            out[key] = f()
+        except NotRecognised as e:
+            out[key] = e
     return out
 
 
@@ -492,13 +606,16 @@ def compiled_pattern(snap, meth):
     return pats[0]
 
 
+def extra_flags(snap, meth):
+    """flags of the compiled pattern other than the bytes default and re.M, as an int (0 = none)"""
+    rt = compiled_pattern(snap, meth)
+    return int(rt.flags & ~re.compile(b"").flags & ~re.M)
+
+
 def pattern_source(snap, tree, meth):
     """(exact pattern bytes, MULTILINE?) — from the `def` line literal when it is one, else from the compiled object;
     both must agree when both exist."""
     rt = compiled_pattern(snap, meth)
-    extra = rt.flags & ~re.compile(b"").flags & ~re.M
-    if extra:
-        raise NotRecognised("%s: flags %r" % (meth, rt.flags))
     fn = _proc_fn(tree, meth)
     defaults = [d for d in fn.args.defaults + fn.args.kw_defaults if d is not None]
     comp = [d for d in defaults if isinstance(d, ast.Call) and extract.dotted(d.func) == "re.compile"]
@@ -514,6 +631,8 @@ def pattern_source(snap, tree, meth):
 def pattern_struct(snap, tree, meth, groups):
     """structural form: (key bytes, anchored, (ws_class, min, unbounded))"""
     pat, multiline = pattern_source(snap, tree, meth)
+    if extra_flags(snap, meth):
+        raise NotRecognised("%s: flags %r" % (meth, compiled_pattern(snap, meth).flags))
     m = _STRUCT.match(pat)
     if not m:
         raise NotRecognised("%s: pattern %r is not [(?m)^]KEY(SEP(\\d+)){n}" % (meth, pat))
@@ -530,6 +649,68 @@ def pattern_struct(snap, tree, meth, groups):
         pass        # MULTILINE without ^ changes nothing
     sep = (atom == rb"\s", 0 if (quant == b"*" or atom == b"") else 1, quant in (b"*", b"+"))
     return key.replace(rb"\n", b"\n"), pre is not None, sep
+
+
+def clock_ticks_rhs(tree):
+    """the value node of the single module-level `CLOCK_TICKS = <expr>`; None when there is not exactly one
+    assignment to that name in the whole module"""
+    top = [st for st in tree.body if isinstance(st, ast.Assign) and any(_is_name(t, "CLOCK_TICKS") for t in st.targets)]
+    every = [st for st in ast.walk(tree)
+             if (isinstance(st, (ast.Assign, ast.AugAssign, ast.AnnAssign))
+                 and any(_is_name(t, "CLOCK_TICKS") for t in (st.targets if isinstance(st, ast.Assign) else [st.target])))]
+    if len(top) == 1 and len(every) == 1:
+        return top[0].value
+    return None
+
+
+def clock_ticks_expr(tree):
+    rhs = clock_ticks_rhs(tree)
+    if rhs is None:
+        return "<CLOCK_TICKS is not assigned exactly once at module level>"
+    return ast.unparse(rhs)
+
+
+def public_name_facts(snap):
+    """psutil/__init__.py Process.name(): threshold of the truncation test, guards of `name = extended_name`,
+    source of extended_name — each on its own"""
+    tree = extract.parse_module(snap, "__init__.py")
+    fn = extract.find_def(tree, "name", cls="Process")
+    out = _Partial()
+
+    def min_of():
+        cmps = [c for c in ast.walk(fn) if isinstance(c, ast.Compare) and ast.unparse(c.left) == "len(bname)"
+                and len(c.ops) == 1]
+        if len(cmps) != 1:
+            raise NotRecognised("name(): %d comparisons of len(bname)" % len(cmps))
+        k = extract.const(cmps[0].comparators[0])
+        if not isinstance(k, int) or k < 0:
+            raise NotRecognised("name(): len(bname) compared with %s" % ast.unparse(cmps[0].comparators[0]))
+        if isinstance(cmps[0].ops[0], ast.GtE):
+            return k
+        if isinstance(cmps[0].ops[0], ast.Gt):
+            return k + 1
+        raise NotRecognised("name(): %s" % ast.unparse(cmps[0]))
+
+    def assign_of(target, value_pred):
+        hits = [st for st in ast.walk(fn) if isinstance(st, ast.Assign) and len(st.targets) == 1
+                and _is_name(st.targets[0], target) and value_pred(st.value)]
+        if len(hits) != 1:
+            raise NotRecognised("name(): %d assignments `%s = ...` of the expected kind" % (len(hits), target))
+        return hits[0]
+
+    def guards_of():
+        st = assign_of("name", lambda v: _is_name(v, "extended_name"))
+        if "bname = os.fsencode(name) if POSIX else b''" not in ast.unparse(fn):
+            raise NotRecognised("name(): bname is not os.fsencode(name)")
+        return _enclosing_if_tests(fn, st)
+
+    for key, f in (("min", min_of), ("guards", guards_of),
+                   ("source", lambda: ast.unparse(assign_of("extended_name", lambda v: True).value))):
+        try:
+            out[key] = f()
+        except NotRecognised as e:
+            out[key] = e
+    return out
 
 
 def facts(snap, F):
@@ -551,35 +732,37 @@ def facts(snap, F):
             i = ps()["idx"].get(k)
             if i is None:
                 raise NotRecognised("no index for key %r" % k)
+            if isinstance(i, NotRecognised):
+                raise i
             return extract.lean_nat(i)
         return f
 
     B = extract.lean_bool
-    F.try_add("statUsesRfind", "Bool", lambda: B(ps()["statUsesRfind"]),
+    F.try_add("statUsesRfind", "Bool", lambda: B(ps().need("statUsesRfind")),
               "_parse_stat_file: the closing parenthesis is located with data.rfind(b')') (true) or .find (false)")
-    F.try_add("nameFromFirstLpar", "Bool", lambda: B(ps()["nameFromFirstLpar"]),
+    F.try_add("nameFromFirstLpar", "Bool", lambda: B(ps().need("nameFromFirstLpar")),
               "_parse_stat_file: name = data[data.find(b'(') + 1 : rpar] (find = true, rfind = false)")
-    F.try_add("statSkip", "Nat", lambda: extract.lean_nat(ps()["statSkip"]),
+    F.try_add("statSkip", "Nat", lambda: extract.lean_nat(ps().need("statSkip")),
               "_parse_stat_file: fields = data[rpar + k:].split()")
     F.try_add("iStatus", "Nat", idx_of(lambda: method_key(tree, "status", None)), "fields index status() reads")
     F.try_add("iPpid", "Nat", idx_of(lambda: method_key(tree, "ppid", "int")), "fields index ppid() reads through int()")
     F.try_add("iTty", "Nat", idx_of(lambda: method_key(tree, "terminal", "int")), "fields index terminal() reads through int()")
     for j, nm in enumerate(["iUtime", "iStime", "iCutime", "iCstime", "iBlkio"]):
-        F.try_add(nm, "Nat", idx_of(lambda j=j: ct()[j]),
+        F.try_add(nm, "Nat", idx_of(lambda j=j: _val(ct()[j])),
                   "fields index feeding pcputimes positional argument %d (float(..) / CLOCK_TICKS)" % j)
     F.try_add("iStart", "Nat", idx_of(lambda: create_time_key(tree)),
               "fields index create_time() reads: float(..) / CLOCK_TICKS + bt")
     F.try_add("iCpu", "Nat", idx_of(lambda: method_key(tree, "cpu_num", "int")), "fields index cpu_num() reads through int()")
-    F.try_add("blkioFallback", "Bool", lambda: B(ps()["blkioFallback"]),
+    F.try_add("blkioFallback", "Bool", lambda: B(ps().need("blkioFallback")),
               "_parse_stat_file: IndexError on the blkio_ticks index stores 0")
     F.try_add("nameKeyIsName", "Bool",
-              lambda: B(method_key(tree, "name", "decode") == "name" and ps()["nameKeyOk"]),
+              lambda: B(method_key(tree, "name", "decode") == "name" and ps().need("nameKeyOk")),
               "name() returns decode(ret['name']) and ret['name'] is the slice between the parentheses")
-    F.try_add("threadsUsesRfind", "Bool", lambda: B(th()["threadsUsesRfind"]),
+    F.try_add("threadsUsesRfind", "Bool", lambda: B(th().need("threadsUsesRfind")),
               "threads(): the closing parenthesis is located with st.rfind(b')') (true) or st.find (false)")
-    F.try_add("threadsSkip", "Nat", lambda: extract.lean_nat(th()["threadsSkip"]), "threads(): st[idx + k:]")
-    F.try_add("tUtime", "Nat", lambda: extract.lean_nat(th()["utime"]), "threads(): values index of user time")
-    F.try_add("tStime", "Nat", lambda: extract.lean_nat(th()["stime"]), "threads(): values index of system time")
+    F.try_add("threadsSkip", "Nat", lambda: extract.lean_nat(th().need("threadsSkip")), "threads(): st[idx + k:]")
+    F.try_add("tUtime", "Nat", lambda: extract.lean_nat(threads_index(th(), "utime")), "threads(): values index of user time")
+    F.try_add("tStime", "Nat", lambda: extract.lean_nat(threads_index(th(), "stime")), "threads(): values index of system time")
     F.try_add("statusBinary", "Bool", lambda: B(status_binary(tree)),
               "_read_status_file opens the file with open_binary (no universal-newline translation)")
     for nm, meth, g in (("uid", "uids", 3), ("gid", "gids", 3), ("thr", "num_threads", 1), ("ctx", "num_ctx_switches", 1)):
@@ -594,28 +777,43 @@ def facts(snap, F):
         F.try_add(nm + "PatternSrc", "List Nat", lambda meth=meth: extract.lean_bytes(once("src:" + meth, lambda: pattern_source(snap, tree, meth))[0]),
                   "%s(): the exact source of the compiled status regex (def-line literal = pattern object of the imported module)" % meth)
 
+    F.try_add("statusRegexExtraFlags", "List Nat",
+              lambda: extract.lean_list([str(extra_flags(snap, m)) for m in ("uids", "gids", "num_threads", "num_ctx_switches")]),
+              "flags of the four compiled status regexes other than re.M (re.I = 2, re.S = 16, re.X = 64 ...): 0 = none")
+    F.try_add("clockTicksExpr", "String", lambda: extract.lean_str(clock_ticks_expr(tree)),
+              "_pslinux.py: the expression the module-level constant CLOCK_TICKS is defined by")
+    nf = lambda: once("nf", lambda: public_name_facts(snap))
+    F.try_add("nameExtendMin", "Nat", lambda: extract.lean_nat(nf().need("min")),
+              "psutil/__init__.py Process.name(): N of `len(bname) >= N` (a kernel name of N bytes or more may be truncated)")
+    F.try_add("nameExtendGuards", "List String", lambda: extract.lean_list([extract.lean_str(g) for g in nf().need("guards")]),
+              "Process.name(): the `if` conditions under which `name = extended_name` runs (innermost last)")
+    F.try_add("nameExtendSource", "String", lambda: extract.lean_str(nf().need("source")),
+              "Process.name(): the expression extended_name is assigned from")
+
     tm = lambda: once("tm", lambda: tmap_facts(snap))
     bt = lambda: once("bt", lambda: boot_time_facts(tree))
     ts = lambda: once("ts", lambda: threads_scan_facts(tree))
-    F.try_add("tmapGlobs", "List String", lambda: extract.lean_list([extract.lean_str(g) for g in tm()["globs"]]),
+    F.try_add("tmapGlobs", "List String", lambda: extract.lean_list([extract.lean_str(g) for g in tm().need("globs")]),
               "_psposix.get_terminal_map: the patterns of ls = glob.glob(..) + glob.glob(..)")
-    F.try_add("tmapSkipsVanished", "Bool", lambda: B(tm()["skipsVanished"]),
+    F.try_add("tmapSkipsVanished", "Bool", lambda: B(tm().need("skipsVanished")),
               "get_terminal_map: os.stat(name) sits in try/except FileNotFoundError: pass")
-    F.try_add("tmapChecksChr", "Bool", lambda: B(tm()["checksChr"]),
+    F.try_add("tmapChecksChr", "Bool", lambda: B(tm().need("checksChr")),
               "get_terminal_map: only character devices (stat.S_ISCHR) enter the map")
-    F.try_add("tmapMemoized", "Bool", lambda: B(tm()["memoized"]), "get_terminal_map is decorated with @memoize")
+    F.try_add("tmapStoreGuards", "List String", lambda: extract.lean_list([extract.lean_str(g) for g in tm().need("guards")]),
+              "get_terminal_map: the `if` conditions under which `ret[st.st_rdev] = name` runs (innermost last)")
+    F.try_add("tmapMemoized", "Bool", lambda: B(tm().need("memoized")), "get_terminal_map is decorated with @memoize")
     F.try_add("btimeKey", "List Nat", lambda: extract.lean_bytes(bt()["key"]), "boot_time(): line.startswith(KEY)")
     F.try_add("btimeIdx", "Nat", lambda: extract.lean_nat(bt()["idx"]), "boot_time(): float(line.strip().split()[IDX])")
     F.try_add("createUsesCachedBoot", "Bool", lambda: B(create_uses_cached_boot(tree)),
               "create_time(): bt = BOOT_TIME or boot_time()")
-    F.try_add("threadsSorts", "Bool", lambda: B(ts()["sorts"]), "threads(): thread_ids.sort() before the loop")
-    F.try_add("threadsSkipsVanished", "Bool", lambda: B(ts()["skipsVanished"]),
+    F.try_add("threadsSorts", "Bool", lambda: B(ts().need("sorts")), "threads(): thread_ids.sort() before the loop")
+    F.try_add("threadsSkipsVanished", "Bool", lambda: B(ts().need("skipsVanished")),
               "threads(): except (FileNotFoundError, ...): hit_enoent = True; continue")
-    F.try_add("threadsChecksAlive", "Bool", lambda: B(ts()["checksAlive"]),
+    F.try_add("threadsChecksAlive", "Bool", lambda: B(ts().need("checksAlive")),
               "threads(): if hit_enoent: self._raise_if_not_alive()")
-    F.try_add("threadsSkipsEsrch", "Bool", lambda: B(ts()["skipsEsrch"]),
+    F.try_add("threadsSkipsEsrch", "Bool", lambda: B(ts().need("skipsEsrch")),
               "threads(): ProcessLookupError (ESRCH from open or read of task/<tid>/stat) is caught like FileNotFoundError")
-    F.try_add("threadsHitStartsFalse", "Bool", lambda: B(ts()["hitStartsFalse"]),
+    F.try_add("threadsHitStartsFalse", "Bool", lambda: B(ts().need("hitStartsFalse")),
               "threads(): hit_enoent = False before the loop (the final liveness check runs only after a vanished thread)")
 
     def statuses():
